@@ -22,6 +22,8 @@ OBLIGATIONS = [
      "statement": "a clock advance of any size prunes exactly the entries whose expiry has passed, with no eviction step"},
     {"id": "C12_M3", "theorem": "Iora.C12.M3_overwrite", "kind": "proved",
      "statement": "after set k v the key holds exactly v with no expiry whatever it held before; get returns v byte for byte"},
+    {"id": "C12_M3_ttl", "theorem": "Iora.C12.M3_ttl_deadline", "kind": "proved",
+     "statement": "after set k v ttl with ANY ttl > 0 (seconds::max() included) the key holds v with deadline min(now + ttl, last representable instant) > now: the deadline saturates instead of wrapping into the past"},
     {"id": "C12_M4", "theorem": "Iora.C12.M4_restart", "kind": "proved",
      "statement": "clean close + reopen at the current time (after any clock advance) preserves the abstract state and the invariants"},
     {"id": "C12_M5", "theorem": "Iora.C12.M5_compaction", "kind": "proved",
@@ -54,8 +56,8 @@ def gen_cases(ctx, rng, quick):
     n_free = 60 if quick else 1200
     for i in range(n_det):
         r = rng.fork("det%d" % i)
-        cfg = {"maxCache": r.choice([1, 1, 2, 3, 4, 1000]), "maxLog": r.choice([60, 200, 1000, 10 ** 7, 10 ** 7]),
-               "inline": r.choice([1, 1, 0]), "now": r.choice([1000, 1, 1700000000000, 5])}
+        cfg = {"maxCache": r.choice([1, 1, 2, 3, 4, 1000, 0]), "maxLog": r.choice([60, 200, 1000, 10 ** 7, 10 ** 7]),
+               "inline": r.choice([1, 1, 0]), "now": r.choice([1000, 1, 1700000000000, 5, 1700000000000, K.MAXMS - 7000, K.MAXMS - 1500])}
         n_ops = r.range(5, 50)
         ops, meta = K.gen_history(r, n_ops, cfg, free=False, allow_big=(i % 40 == 7))
         cases.append({"cat": "history", "ops": ops, "cfg": cfg, "dist": meta["dist"]})
@@ -70,6 +72,35 @@ def gen_cases(ctx, rng, quick):
             meta["dist"]["stress"] = 1
         cases.append({"cat": "free-running", "ops": ops, "cfg": cfg, "dist": meta["dist"]})
     return cases
+
+
+def check_stats(ctx, st, crashed=False):
+    """Machinery self-checks and the two clock constants of the tie."""
+    if not st:
+        if crashed:
+            return          # the harness kept crashing (reported as violations by the monitors): no counters to check
+        raise RuntimeError("harness did not answer `stats`")
+    # the deterministic configuration relies on the pthread_cond_clockwait interposer (long timed waits are sliced): if libstdc++ stops
+    # using that entry point the harness can hang or spin; that is a failure of the machinery, not of the property
+    # (the counters are per harness process: after a harness crash the last process may have run free-running cases only)
+    if not crashed and (int(st.get("sliced_waits", "0")) == 0 or int(st.get("clock_monotonic", "0")) == 0 or int(st.get("clock_realtime", "0")) == 0):
+        raise RuntimeError("interposers not hit (sliced_waits=%s clock_monotonic=%s clock_realtime=%s): the deterministic clock/wait control is not in effect"
+                           % (st.get("sliced_waits"), st.get("clock_monotonic"), st.get("clock_realtime")))
+    import translate
+    try:
+        _, text = translate.generate("kv", ctx.repo)
+    except Exception:
+        return
+    import re
+    gen = {m.group(1): int(m.group(2)) for m in re.finditer(r"def (maxPlausibleEpochMs|timePointMaxMs) : Int := (-?\d+)", text)}
+    if gen.get("timePointMaxMs") != int(st.get("tp_max_ms", "-1")):
+        ctx.violation("translator", "Gen timePointMaxMs=%s but the compiler computes toEpochMs(system_clock::time_point::max())=%s"
+                      % (gen.get("timePointMaxMs"), st.get("tp_max_ms")), {"broken": {"translator": "kv", "detail": "time_point range assumption (int64 ns)"}})
+    if gen.get("maxPlausibleEpochMs") != int(st.get("max_plausible_ms", "-1")):
+        ctx.violation("translator", "Gen maxPlausibleEpochMs=%s but KVStore::kMaxPlausibleEpochMs=%s" % (gen.get("maxPlausibleEpochMs"), st.get("max_plausible_ms")),
+                      {"broken": {"translator": "kv", "detail": "kMaxPlausibleEpochMs evaluation"}})
+    if gen.get("maxPlausibleEpochMs") == K.MAXMS and gen.get("timePointMaxMs") != K.MAXMS:
+        raise RuntimeError("props/kv_shared.py MAXMS is out of date")
 
 
 def compare_case(c, impl, model):
@@ -144,7 +175,9 @@ def run(ctx: Ctx):
         n_mismatch = 0
         for c, impl, model in res:
             if c["cat"] == "stats":
-                ctx.extra["interposer_counts"] = dict(x.split("=") for x in impl[0].split()[1:]) if impl[0].startswith("stats ") else impl[0]
+                st = dict(x.split("=") for x in impl[0].split()[1:]) if impl[0].startswith("stats ") else {}
+                ctx.extra["interposer_counts"] = st or impl[0]
+                check_stats(ctx, st, crashed=any("crash" in cc for cc, _, _ in res))
                 continue
             dist[c["cat"]] = dist.get(c["cat"], 0) + 1
             for k, v in c.get("dist", {}).items():
@@ -182,8 +215,13 @@ def run(ctx: Ctx):
     ctx.assumptions += [
         "times are whole milliseconds (system_clock has ns resolution; expiries are persisted truncated to ms, so a sub-millisecond expiry can lapse up to 1 ms early after a restart — not modelled)",
         "the wall clock never goes backwards (the harness only advances CLOCK_REALTIME)",
-        "now + ttl and every expireAt deadline are representable (0 < now, deadline <= kMaxPlausibleEpochMs ~ year 2300)",
-        "every public method is one critical section under _mutex (what the code does); the history is the order of those sections",
+        "0 < now <= last representable instant; the time_point handed to expireAt is representable (<= kMaxPlausibleEpochMs = last whole ms of system_clock::time_point after FC12b; explicit hypothesis StepOK); "
+        "TTLs need NO side condition: the deadline saturates (theorem M3_ttl_deadline), and Gen's timePointMaxMs / maxPlausibleEpochMs are cross-checked against the values the compiled harness prints",
+        "every public method is one atomic step of the model. Exceptions in the code, all modelled as ONE step: removeWithPrefix() is keysWithPrefix() followed by one remove() per key, "
+        "each under its own lock; get()'s cache fast path runs under _cacheMutex only (never _mutex); set(key, value, ttl)/setBatch(batch, ttl) sample now() BEFORE taking _mutex",
+        "the wall clock is constant within one operation (the harness freezes CLOCK_REALTIME between ops) while the code reads it 2-3 times per call (e.g. deadline, then clampDelay in armTimerLocked; "
+        "keysWithPrefix then each remove): a clock tick between those reads is not modelled",
+        "maxCacheSize = 0 means cache off (after the FC12c repair; before it the first set/get was undefined behaviour); every other size, including 1, is covered by the theorems (cache-victim choice adversarial)",
         "deterministic cases: background compaction thread off or idle (compactionInterval 30 s), wheel tick 1 h and steady_clock frozen, so eviction happens only through the `evict` op (KVStore::evictionCallback called directly with the key's current / a stale / the invalid timer id) and through TimingWheel::drain at close; "
         "free-running cases: real wheel (1 ms tick), real eviction worker and 2 ms background compaction race the operations; only results and reads are compared there",
         "cache victim (`_cache.begin()`) is unspecified: the theorems hold for every choice; cache contents are checked by the implementation-side coherence monitor, not compared with the model",
